@@ -80,6 +80,7 @@ class ApiSession:
         self.p_acks = 0
         self._wait_p_acks(1)
         self.tag = 0
+        self.duplicates = []
 
     def _wait_p_acks(self, n, timeout=5.0):
         self.p_acks += n
@@ -114,8 +115,13 @@ class ApiSession:
         self.rig.outq_empty(timeout)
         self.rd.pump(0.0)
         got = set()
+        self.duplicates = []
+        seen = set()
         for f in self.rd.frames():
             if f.send_time in tags and f.msg_type == tags[f.send_time]:
+                if f.send_time in seen:
+                    self.duplicates.append(tags[f.send_time])
+                seen.add(f.send_time)
                 got.add(tags[f.send_time])
         return got
 
